@@ -13,5 +13,5 @@ for s in $ids; do
   out=$(tools/run_seed.sh "$PWD/seeded/$s" "$prop" 2>&1)
   if echo "$out" | grep -q "PATCH DOES NOT APPLY"; then echo "$s noapply";
   elif echo "$out" | grep -q "^VIOLATION"; then echo "$s caught";
-  else echo "$s MISSED $(echo "$out" | grep -E "^C[0-9]+ |INCONCL" | head -2 | tr '\n' ' ' | cut -c1-200)"; fi
+  else echo "$s MISSED $(echo "$out" | grep -E '^C[0-9]+ |INCONCL' | head -2 | tr '\n' ' ' | cut -c1-200)"; fi
 done
